@@ -293,6 +293,13 @@ def fact_case(rng, n, k=None, kind=None, density=None, form=None, dyadic=None):
     missing = rng.random(size=shape) < density
     if density == 1.0:
         missing[:] = True
+    if k is not None and k >= 2 and n:
+        # column-level patterns: one column entirely missing, another entirely valid
+        r = rng.random()
+        if r < 0.12:
+            missing[:, int(rng.integers(0, k))] = True
+        if 0.06 < r < 0.2:
+            missing[:, int(rng.integers(0, k))] = False
     if form == "nan":
         values = values.copy()
         values[missing] = numpy.nan
